@@ -425,6 +425,8 @@ struct Obs {
     resolvers: u64,
     analyzer: Option<(u64, u64)>,
     visits: (u64, u64, u64),
+    /// C11: verif_hooks::RULE_STEPS read after the request (steps of the validation rules' own walks)
+    steps: [u64; 5],
     msg: String,
 }
 
@@ -457,8 +459,10 @@ fn run<E: Executor>(schema: &E, doc: &str, vars: &serde_json::Value) -> Obs {
     }
     RESOLVER_CALLS.store(0, Ordering::SeqCst);
     let _ = async_graphql::verif_hooks::take_visits();
+    let _ = async_graphql::verif_hooks::take_rule_steps();
     let resp = block_on(schema.execute(req));
     let visits = async_graphql::verif_hooks::take_visits();
+    let steps = async_graphql::verif_hooks::take_rule_steps();
     let resolvers = RESOLVER_CALLS.swap(0, Ordering::SeqCst);
     let (decision, msg) = classify(&resp);
     let analyzer = resp.extensions.get("analyzer").and_then(|v| {
@@ -470,7 +474,7 @@ fn run<E: Executor>(schema: &E, doc: &str, vars: &serde_json::Value) -> Obs {
             None
         }
     });
-    Obs { decision, resolvers, analyzer, visits, msg }
+    Obs { decision, resolvers, analyzer, visits, steps, msg }
 }
 
 fn g_obs(o: &Obs) -> String {
@@ -617,6 +621,17 @@ fn main() {
             nontrivial
         );
         writeln!(out, "CASE\t({sname}, {gdoc}, {}, {}, {}, {})\t{meta}", g_vars(it, vars), g_limits(lim), g_bool(fast), g_obs(&o)).unwrap();
+        if c11 {
+            // second C11 stream: the five rule-step counters, compared with RuleCost.rule_steps
+            let meta = format!(
+                "{{\"uses\":[{}],\"text\":{},\"impl\":{},\"nontrivial\":{}}}",
+                jstr(sname),
+                jstr(&format!("[{sname}{}{} {:?}] {}", if fast { " fast" } else { "" }, tag, lim, shown)),
+                jstr(&format!("decision={} rule_steps={:?}", o.decision, o.steps)),
+                o.steps.iter().any(|x| *x > 1)
+            );
+            writeln!(out, "RULE\t({sname}, {gdoc}, {}, {}, {})\t{meta}", g_limits(lim), g_bool(fast), g_list(o.steps.iter(), |x| format!("{x}%N"))).unwrap();
+        }
         true
     };
 
